@@ -15,11 +15,11 @@ TECHNIQUE = ("ownership rule (single constructor choke point) + abstract interpr
 AMOUNT_KINDS = ["dec", "frac", "int", "stddec", "float", "bool"]
 
 
-def ctor_cases(prog, cr: CaseRunner, rule="R05.2"):
+def ctor_cases(prog, cr: CaseRunner, rule="R05.2", flavors=("ref", "ref+quantum", "money", "noref")):
     """K11: every path of Quantity.__new__ that stores the fields passes through the quantum step."""
     new = prog.method("Quantity", "__new__")
     for kind in AMOUNT_KINDS:
-        for fl in ("ref", "ref+quantum", "money", "noref"):
+        for fl in flavors:
             def setup(c, fl=fl, kind=kind):
                 c.new_type("T", **FLAVORS[fl])
                 return [c.cls("T"), c.num("x", kind), c.unit("us", "T")], {}
@@ -54,6 +54,8 @@ def ctor_cases(prog, cr: CaseRunner, rule="R05.2"):
                         return ("amount altered for a type without quantum", f"stored {got!r}")
                 return None
             cr.run(rule, new, f"amount {kind}, unit given [{fl}]", setup, judge, inline_ctor=True)
+    if "ref+quantum" not in flavors:
+        return
     # unit omitted -> reference unit; generic factory -> unit's type
     for fl in ("ref+quantum",):
         def setup_nounit(c, fl=fl):
